@@ -1,4 +1,5 @@
 import Acra.Lemmas.Ch11TimeFmt
+import Acra.Lemmas.ReviewC04Calendar
 import Acra.Spec.Ch11
 namespace Acra.Props.C04
 open Acra.Py Acra.Model.Ch11Pay.TimeFmt Acra.Gen.Ch11TimeFmt Acra.Lemmas.Ch11Calendar Acra.Lemmas.Ch11TimeFmt
@@ -155,5 +156,68 @@ example : TDF1_WF ⟨0x251, 1709208000, 123456789⟩ 1709208000 ∧ yearAvail 0x
 /-- outside the statement: second 4102444800 is 2100-01-01 (still encodable — the model and the code
     agree on it — but beyond the range the calendar lemma was checked for) -/
 example : civil 4102444800 = (2100, 1, 1) := by decide
+
+/-! ### review additions (rev1-C04) -/
+open Acra.Lemmas.ReviewC04Calendar
+
+/-- joint witness for the day-of-year theorems (`h` and `hy` on the SAME object; the example above pairs
+    `yearAvail 0x51 = false` with a state whose word is 0x251): 2024-02-29 12:00:00, day 60 of a leap year -/
+example : TDF1_WF ⟨0x51, 1709208000, 999999999⟩ 1709208000 ∧ yearAvail (⟨0x51, 1709208000, 999999999⟩ : State1).channel_specific_data = false ∧
+    dayOfYear 2024 2 29 = 60 := by
+  refine ⟨⟨rfl, by simp, by simp [DAYS], by simp⟩, by decide, by decide⟩
+
+/-- anchors of `civil` at both ends of the range and on the leap days the Gregorian exceptions decide -/
+example : civil 0 = (1970, 1, 1) ∧ civil 86399 = (1970, 1, 1) ∧ civil 86400 = (1970, 1, 2) ∧
+    civil 951782400 = (2000, 2, 29) ∧ civil 4102444799 = (2099, 12, 31) ∧ civil 68169600 = (1972, 2, 29) ∧
+    civil 68256000 = (1972, 3, 1) := by decide
+
+/-- the layout and round-trip theorems above speak of `civil n`, the MODEL's date of second `n`.  This
+    ties it to the calendar itself: for every second of 1970-01-01 … 2099-12-31 the date is valid
+    (month 1…12, day 1…length of that month under the Gregorian leap rule) and its textbook day count
+    — 365 per year passed since 1970, one more per leap year passed, the days of the months passed,
+    the day of the month — is `n / 86400`.  (The textbook count is strictly increasing on valid dates,
+    so this determines `civil n`.) -/
+theorem TDF1_civil_gregorian (n : Nat) (h : n < 86400 * DAYS) :
+    1970 ≤ (civil n).1 ∧ (civil n).1 ≤ 2099 ∧ 1 ≤ (civil n).2.1 ∧ (civil n).2.1 ≤ 12 ∧ 1 ≤ (civil n).2.2 ∧
+    (civil n).2.2 ≤ daysInMonth (civil n).1 (civil n).2.1 ∧
+    n / 86400 = 365 * ((civil n).1 - 1970) + leapsBefore ((civil n).1 - 1970) +
+      cumDays (isLeap (civil n).1) (civil n).2.1 + ((civil n).2.2 - 1) := by
+  have hf := day_facts n h
+  have hg := civil_gregorian n h
+  simp only at hf hg
+  unfold civil
+  exact ⟨hf.2.1, hf.2.2.1, hf.2.2.2.1, hf.2.2.2.2.1, hf.2.2.2.2.2.1, hf.2.2.2.2.2.2.1, hg.1⟩
+
+/-- what `TDF1_roundtrip_doy` subtracts: `startOfYear n` is second 0 of 1 January of the year that
+    contains `n` (textbook count), it is not after `n` and less than 366 days before it — so the
+    decoded value is the time elapsed since the start of the year, below 366 days -/
+theorem TDF1_startOfYear (n : Nat) (h : n < 86400 * DAYS) :
+    startOfYear n = 86400 * (365 * ((civil n).1 - 1970) + leapsBefore ((civil n).1 - 1970)) ∧
+    startOfYear n ≤ n ∧ n < startOfYear n + 366 * 86400 := by
+  unfold startOfYear civil
+  exact yearStart_facts n h
+
+/-- day-of-year variant, year 1970 (the decoder's base year): a true round trip — the same second
+    comes back, nanoseconds to 10 ms.  For later years the format has lost the year
+    (`TDF1_roundtrip_doy`, `TDF1_startOfYear`). -/
+theorem TDF1_roundtrip_doy_1970 (st t : State1) (n : Nat) (h : TDF1_WF st n)
+    (hy : yearAvail st.channel_specific_data = false) (h70 : n < 365 * 86400) :
+    ∃ b, st.pack = .ok b ∧
+      State1.unpack t b = ({ st with nanoseconds := st.nanoseconds - st.nanoseconds % 10000000 }, .ok ()) := by
+  obtain ⟨b, h1, h2, _⟩ := TDF1_roundtrip_doy st t n h hy
+  refine ⟨b, h1, ?_⟩
+  rw [h2]
+  have e : startOfYear n = 0 := by
+    unfold startOfYear civil
+    rw [yearStart_1970 n h70, Nat.sub_self]
+  rw [e, Nat.sub_zero, ← h.1]
+
+/-- joint witness for `TDF1_roundtrip_doy_1970`: 1970-12-31 23:59:59.99 -/
+example : TDF1_WF ⟨0x51, 31535999, 999999999⟩ 31535999 ∧ yearAvail (⟨0x51, 31535999, 999999999⟩ : State1).channel_specific_data = false ∧
+    31535999 < 365 * 86400 := by
+  refine ⟨⟨rfl, by simp, by simp [DAYS], by simp⟩, by decide, by decide⟩
+
+/-- the year IS lost after 1970: second 31536000 (1971-01-01 00:00:00) is in range and its start of year is itself -/
+example : startOfYear 31536000 = 31536000 := by decide
 
 end Acra.Props.C04
